@@ -11,7 +11,7 @@ NPROC = min(16, os.cpu_count() or 4)
 _FN = None
 
 
-ITEM_LIMIT = float(os.environ.get("VERIF_ITEM_LIMIT", "60"))
+ITEM_LIMIT = float(os.environ.get("VERIF_ITEM_LIMIT", "120"))
 
 
 class ItemTimeout(BaseException):
